@@ -19,7 +19,7 @@ BASE_NOTE = ("Trusted base: the harness's own RFC 6962 tree / RFC 9162 verifier 
              "Go 1.26.8 testing/synctest fake clock, the seeded scheduler; sampling, not enumeration, unless the evidence says exhaustive.")
 
 add("C01", ENGINE_W, "exploration", "deterministic simulation: seeded adversarial histories + seeded schedules + fail-stop storage faults, ground-truth leaf oracle",
-    "Seeded search over histories of update requests (forks of every branch, wrong old sizes, forged/padded/truncated/replayed proofs, byte-level forgeries), sequential, concurrent under the seeded quiescence scheduler, and with fail-stop storage faults, on the real witness over both stores; oracle = ground-truth leaf comparison of consecutive accepted checkpoints in commit order. Evidence, not proof.",
+    "Seeded search over histories of update requests (forks of every branch, wrong old sizes, forged/padded/truncated/replayed proofs, byte-level forgeries), sequential, concurrent under the seeded quiescence scheduler, and with fail-stop storage faults, on the real witness over both stores; oracle = ground-truth leaf comparison of consecutive accepted checkpoints in commit order, of the checkpoints handed out (pairwise, order-free, when requests overlap) and of what is served. Evidence, not proof.",
     BASE_NOTE, "DESIGN.md 5/C01")
 add("C03", ENGINE_W, "exploration", "deterministic simulation: seeded histories + fail-stop storage faults, before/after side snapshots",
     "Every refused update (all refusal classes incl. injected storage failures) in seeded histories is bracketed by byte-level snapshots of every log and the log list taken through a fault-free second handle on the same store; returned bytes must be empty or the stored checkpoint and never carry a witness signature over the refused text.",
@@ -48,7 +48,7 @@ add("C12", ENGINE_W, "exploration", "deterministic simulation: seeded interleavi
     BASE_NOTE, "DESIGN.md 5/C12")
 
 add("C06", ENGINE_CRASH, "fault_enumeration", "deterministic fault enumeration: real SIGKILL of a child process at every database-driver boundary and every numbered SQLite VFS operation (clean and torn), reopen, recovery + behavioural oracle",
-    "For each seeded history every kill point of the stated kinds is executed: the child process running the real witness on file-backed SQLite kills itself before/after each driver operation and at each VFS write/sync/truncate/delete (clean or torn); a fresh handle reopens the store and checks old-or-new, valid cosignatures, integrity, the log list and the acknowledgements; the history continues (sometimes into a second kill) and the restarted witness must refuse forks and accept the honest next step.",
+    "For each seeded history every kill point of the stated kinds is executed: the child process running the real witness on file-backed SQLite kills itself before/after each driver operation and at each VFS write/sync/truncate/delete (clean or torn); a fresh handle reopens the store and checks old-or-new, valid cosignatures, integrity, the log list and the acknowledgements; the history continues (sometimes into a second kill) and the restarted witness must refuse forks and accept the honest next step. A quarter of the histories run on a WAL-mode store (--db_file=<path>?_journal_mode=WAL), a third with driver-level errors short of a crash.",
     "Process kill, not power loss (page cache survives; unsynced-write reordering not modelled). The statements with which cmd/omniwitness/monolith.go opens --db_file are copied into the crash child at build time (static fallback: sql.Open + SetMaxOpenConns(1)); main() itself is run only for restarts (the real binary). " + BASE_NOTE, "DESIGN.md 3.7, 5/C06")
 add("C07", ENGINE_W, "fault_enumeration", "deterministic fault enumeration: every single storage-fault position at interface and SQL-driver level per seeded history, sampled multi-fault and SQLite VFS I/O-error windows, fault-free tail, wedge detection by the scheduler",
     "Per seeded history a dry run lists every storage call; every single fault position x error kind is then executed at the interface level (both stores) or the SQL-driver level (SQLite), plus sampled multi-fault patterns and VFS-level IOERR/FULL/short-write windows; each execution ends in a fault-free tail. Oracles: no false success, no change on failure, no TOFU on a failing read, tail builds on the last committed state, no wedge / leaked handle / connection in use.",
@@ -80,7 +80,7 @@ add("C14", ENGINE_NET, "exploration", "deterministic simulation: the real omniwi
     "Main runs with 1..4 stub logs (sumdb, tiles), in-memory or SQLite storage, the real http.Server on an in-memory listener; seeded scripts of growth across tile boundaries, growth under fault windows, restarts and a final fork; through HTTP GET the served checkpoint must catch up within 3 poll intervals once faults stop, be validly cosigned, never move backwards across restarts, and stay on the witnessed history after a fork.",
     BASE_NOTE + " Feeder goroutines are not individually scheduled in this world; faults are keyed by request class and occurrence.", "DESIGN.md 5/C14")
 add("C17", ENGINE_NET, "exploration", "finite enumeration by simulated boot: the real Main on each shipped configuration file against eight hostile networks for 10 simulated minutes, plus the loaders Main uses",
-    "Both shipped files are loaded through the functions Main uses (keys parse, IDs distinct, feeder types known, URLs well-formed, rekor treeID present, map and list agree) and Main is booted on each against eight hostile networks for 10 simulated minutes: it must neither return nor panic and each feeder must issue its first request to its configured host. Weak fit for the technique (a finite configuration); decided by running the system, exhaustive over entries.",
+    "Both shipped files are loaded through the functions Main uses (keys parse, IDs distinct, feeder types known, URLs well-formed, rekor treeID present, map and list agree) and Main is booted on each against eight hostile networks for 10 simulated minutes: it must neither return nor panic and each feeder must issue its first request to its configured host; it is then stopped and booted once more in the same process. Weak fit for the technique (a finite configuration); decided by running the system, exhaustive over entries.",
     BASE_NOTE, "DESIGN.md 5/C17")
 add("C19", ENGINE_NET, "exploration", "deterministic simulation with byzantine peers: seeded structure-aware mutation of requests through a faulty reader; each feeder/distributor cycle in a child-process bubble under a wall-clock watchdog against hostile log-signed checkpoints and faulty responses",
     "Mutated and random bodies (to 40 KB) are streamed to the real endpoint (no panic, documented status); one cycle of each real feeder and of the distributor runs in a watchdogged child bubble against peers with log-signed hostile sizes/roots and faulty responses and must end with a result or an error. One genuine defect (F4: sizes in [2^62,2^63) spin in x/mod tlog.ProveTree via the SumDB and Pixel feeders) is listed by signature; any other hang or panic is a VIOLATION.",
